@@ -141,7 +141,7 @@ class _R:
             given = dict((n, v) for n, v in fields)
             order = gv.CALL_FIELDS[name]
             items = []
-            positional = self.level and self.flip(0.2) and name not in ("PModel",)
+            positional = self.level and self.flip(0.06) and name not in ("PModel",)
             # positional prefix only for leading fields present
             if positional:
                 npos = 0
